@@ -537,6 +537,23 @@ def run_center(case, ctx):
                 observed={"estimate_of_output": C.two_level_candidates(est_name, groups_out, by_chrom), "shift": shift},
                 sub=sub,
             )
+        elif skip_low and est != "default" and est_name in ("median", "mean") and case.get("nulls"):
+            # centring an already centred table with the same options changes nothing: in particular the null-coverage
+            # bins, which the first call moved along with everything else, are still ignored
+            once = [float(v) for v in cna["log2"]]
+            again = ctx.call(cna.center_all, est, by_chrom=by_chrom, skip_low=skip_low, diploid_parx_genome=genome)
+            twice = [float(v) for v in cna["log2"]]
+            ctx.trace()
+            ctx.stratum("center: centred a second time (null bins present, skip_low)")
+            moved = max((abs(a - b) for a, b in zip(once, twice)), default=0.0)
+            if isinstance(again, Exc) or not close0(moved, TOL, scale):
+                ctx.violation(
+                    "centring a centred table again (same options) changes nothing: null-coverage bins stay ignored",
+                    f"center_all/second-call-moves/{est_name}/{lvl}",
+                    expected=0.0,
+                    observed=again if isinstance(again, Exc) else moved,
+                    sub={**sub, "first_shift": shift},
+                )
     ctx.state(("center", case["style"], case["chroms"], case.get("pattern"), case.get("nulls"), case.get("depth"), case.get("xkinds"), index), nontrivial=nontrivial)
     ctx.sample("center/" + fam, {"rows": rows[:12], "configs": case["configs"]})
 
